@@ -75,7 +75,9 @@ def try_lock(ctx, db, rid):
                     won = it.val; break
             cons = [c for c in calls(tr) if c.k == 'construct' and norm(c.get('callee')) == 'cocls::mutex::ownership::ownership' and not c.get('copy_or_move')]
             arg = (cons[-1].get('args') or [{}])[0].get('path') if cons else None
-            arg = resolve_select(arg, tr[:pos(tr, cons[-1])]) if cons and arg else arg
+            # the pointer handed to the ownership, judged as a value on this path: through locals (mutex *acquired = ready() ? this : nullptr;
+            # return ownership(acquired);) and conditional expressions decided by the branches taken
+            arg = value_on_path(tr, pos(tr, cons[-1]), arg) if cons and arg else arg
             if won is True:
                 ny += 1
                 if arg != 'this':
@@ -91,6 +93,45 @@ def try_lock(ctx, db, rid):
         ctx.ob(rid, g, g['key'], bad is None, 'ownership(this) iff ready() succeeded' + ('' if not bad else ' -- ' + bad[0]), desc=bad[0] if bad else None)
 
 
+def value_on_path(tr, i, p):
+    """the expression whose value the path `p` has at position i of this trace: followed back through locals, values returned by expanded
+    helpers and std::exchange (origin_in_trace), a conditional expression replaced by the arm the path's branches selected"""
+    for _ in range(4):
+        q, j = origin_in_trace(tr, i, p)
+        if q is None:
+            break
+        q = resolve_select(q, tr[:j])
+        if q == p:
+            break
+        p, i = q, j
+    return p
+
+
+def handover_callees(db, caller, ev):
+    """the bodies the unlock instantiation named by call event `ev` runs as its hand-over functor: whatever it (or a helper it was split
+    into) calls on its functor parameter - a closure, a local functor class or a functor class that is a member of the mutex"""
+    out = []
+    u = db.resolve(caller, ev['callee_key'], ev.get('callee_inst')) if ev.get('callee_key') else None
+    if u is None:
+        return out
+    fparams = {'param:' + p['name'] for p in u['params']}
+    for ub in helper_bodies(db, u):
+        for x in ub.events():
+            if x.k != 'call' or not x.get('callee_key'):
+                continue
+            tgt = x.get('recv') or x.get('callee_expr') or ''
+            if ub is u and tgt not in fparams:
+                continue
+            if ub is not u and not tgt.startswith('param:'):
+                continue
+            if not norm(x.get('callee') or '').endswith('::operator()'):
+                continue
+            c = db.resolve(ub, x['callee_key'], x.get('callee_inst'))
+            if c is not None and not any(c is o for o in out):
+                out.append(c)
+    return out
+
+
 def release_returns_owner(ctx, db, rid):
     ctx.rule(rid, 'COUNT', 'the hand-over functors resume the waiter they receive exactly once; ownership::release merges that resumption into the suspend point it returns '
              '(the caller decides when the new owner runs), the deleter lets it run at once', floor=2)
@@ -101,6 +142,7 @@ def release_returns_owner(ctx, db, rid):
             for g_ in helper_bodies(db, f_):
                 for e_ in g_.events():
                     if e_.k == 'call' and norm(e_.get('callee')) == 'cocls::mutex::unlock':
+                        n0_ = len(out)
                         for a_ in e_.get('args') or []:
                             p_ = a_.get('path') or ''
                             m_ = re.fullmatch(r'(?:move|forward)?\(?local:(\w+)\)?', p_)
@@ -111,6 +153,10 @@ def release_returns_owner(ctx, db, rid):
                             elif 'fn:' in p_:
                                 nm = re.search(r'fn:(.+?)\)*$', p_).group(1)
                                 out += [x for x in db.all_instances() if x['nname'] == norm(nm)]
+                        if len(out) == n0_:
+                            # the functor is an object of a named class (a member struct of the mutex with operator()): it is what this
+                            # instantiation of unlock calls on its functor parameter
+                            out += handover_callees(db, g_, e_)
         return out
     for parent, merged in (('cocls::mutex::ownership::release', True), ('cocls::mutex::ownership_deleter::operator()', False)):
         for lf in functors(parent) or lambdas_of(db, parent):
